@@ -284,7 +284,9 @@ func FirstLine(s string) string {
 	return s
 }
 
-// Residue is what a core left behind when it exited.
+// Residue is what a core left behind when it exited. Stack counts the operand-stack entries beyond
+// the result of the core's function: every function leaves exactly one value (null for a function
+// without result), the module initialiser run by core 0 leaves none.
 type Residue struct {
 	Core      uint  `json:"core"`
 	Stack     int   `json:"stack"`
@@ -398,7 +400,11 @@ func RunCompiled(prog compiler.CompileOutput, src Sources, o VMOpts, out *VMRun)
 	}
 	runtime.VerifCoreExit = func(c *runtime.Core) {
 		mon.mu.Lock()
-		mon.residues = append(mon.residues, Residue{Core: c.Corenum, Stack: len(c.Stack), CallStack: len(c.CallStack), MP: c.MemoryPointer, Handlers: len(c.ExceptionCatchLabels)})
+		stack := len(c.Stack)
+		if c.Corenum != 0 {
+			stack--
+		}
+		mon.residues = append(mon.residues, Residue{Core: c.Corenum, Stack: stack, CallStack: len(c.CallStack), MP: c.MemoryPointer, Handlers: len(c.ExceptionCatchLabels)})
 		mon.mu.Unlock()
 	}
 	runtime.VerifCatch = func(c *runtime.Core) {
